@@ -235,10 +235,12 @@ def cmd_check(args) -> int:
           f'violations={len(new_violations)} known={len(known_seen)} '
           f'inconclusive={len(report.inconclusive)} '
           f'harness_errors={len(report.harness_errors) + len(not_reproduced)}')
+    if new_violations:
+        # a reproduced violation is reported as such even if other
+        # counterexamples of the same run did not reproduce
+        return EXIT_VIOLATION
     if report.harness_errors or not_reproduced:
         return EXIT_HARNESS
-    if new_violations:
-        return EXIT_VIOLATION
     return EXIT_OK
 
 
